@@ -126,7 +126,7 @@ class NPModel:
     inf = float('inf')
     nan = float('nan')
     pi = math.pi
-    _DATA_MOVING = {'concatenate', 'stack', 'asarray', 'array', 'atleast_2d', 'atleast_1d', 'broadcast_to', 'ravel',
+    _DATA_MOVING = {'concatenate', 'stack', 'atleast_2d', 'atleast_1d', 'broadcast_to', 'ravel',
                     'reshape', 'copy', 'hstack', 'vstack', 'take', 'repeat', 'tile', 'flip', 'roll', 'squeeze',
                     'expand_dims', 'transpose', 'append'}
 
@@ -336,6 +336,31 @@ class NPModel:
 
     def count_nonzero(self, a):
         return self.sum(vec1(lambda x: ite(x, 1, 0) if isinstance(x, SBool) else int(bool(x)), np.asarray(a, dtype=object)))
+
+    def asarray(self, a, dtype=None, **kw):
+        """np.asarray: the SAME array object when no conversion is needed (this matters: callers may then write into
+        the caller's own array), otherwise a converted copy"""
+        if isinstance(a, np.ndarray) and a.dtype == object:
+            if dtype is None or self._dt(dtype) == self._it.dtype_of(a):
+                return a
+            return self._it.ndmethod(a, 'astype', [dtype], {}, True)
+        if has_sym(a):
+            seq = list(a)
+            out = np.empty(len(seq), dtype=object)
+            for i, x in enumerate(seq):
+                out[i] = x
+            self._it.sdtype[id(out)] = (out, self._dt(dtype) if dtype is not None else np.dtype(np.float64))
+            if dtype is not None:
+                for i in range(len(seq)):
+                    out[i] = self._it.store_conv(out, out[i])
+            return out
+        return self._it.lift(np.asarray(self._it.typed(a), **({'dtype': dtype} if dtype is not None else {}), **kw))
+
+    def array(self, a, dtype=None, copy=True, **kw):
+        r = self.asarray(a, dtype=dtype)
+        if r is a and copy:
+            r = self._it.ndmethod(a, 'copy', [], {}, True)
+        return r
 
     def isscalar(self, x):
         return isinstance(x, (Num, SInt, SBool)) or np.isscalar(x)
